@@ -166,7 +166,8 @@ def run(ctx):
     # ---- A4 ---------------------------------------------------------------------------------------
     nfun = 0
     nreads = 0
-    for key, (f, _, _) in sorted(reach.items(), key=lambda kv: str(kv[0])):
+    # callers before callees: a file-local helper is analysed under what all of its call sites guarantee
+    for f in ba.order_callers_first([v[0] for _, v in sorted(reach.items(), key=lambda kv: str(kv[0]))]):
         nfun += 1
         obls = ba.analyse(f)
         nreads += sum(1 for o in obls if o.kind == 'read')
@@ -176,7 +177,7 @@ def run(ctx):
             seen[(o.kind, o.text)] = i + 1
             k = '%s[%s:%s#%d]' % (o.kind, f.name, o.text, i)
             if not o.ok:
-                row = exc.get((f.name, o.text))
+                row = exc.get((f.name, o.text)) or semantic_row(exc, f, o)
                 if row is not None:
                     sc_ok, sc_how = side_condition(ctx, prog, f, o, row)
                     if sc_ok:
@@ -246,10 +247,10 @@ def run(ctx):
         if not loops:
             continue
         stuck = Cfg.stuck_cycles(f)
-        stuck_heads = {min(c): (conds, w) for c, conds, w in stuck}
         for i, comp in enumerate(sorted(loops, key=min)):
             nloops += 1
-            hit = stuck_heads.get(min(comp))
+            # a stuck cycle may be an inner loop (or a `continue` path) of this loop
+            hit = next(((conds, w) for c, conds, w in stuck if set(c) <= set(comp)), None)
             at = f.body
             for b in sorted(comp):
                 blk = f.blocks[b]
@@ -319,6 +320,100 @@ def run(ctx):
         chk.ob = real_ob
 
 
+def csv_slot_array(f):
+    """(decl of the slot array, countChars call, character counted) of a function that allocates its result array
+    from the number of separator characters in its input, or None"""
+    cnt = f.calls('snoopy_util_string_countChars')
+    if len(cnt) != 1:
+        return None
+    h = common.holder(f, cnt[0])
+    for m in f.calls('malloc') + f.calls('calloc'):
+        refs = {(decl_of(x) or {}).get('id') for a in m.ch[1:] if a is not None for x in a.walk() if x.k == 'DeclRefExpr'}
+        # the count reaches the size expression directly or through one local (argCount = commaCount + 1)
+        via = {d['id'] for d in f.local_decls() if any(
+            any((decl_of(x) or {}).get('id') == h for x in e.walk() if x.k == 'DeclRefExpr') for e in def_exprs(f, d['id']))}
+        if h is not None and (h in refs or refs & via):
+            arr = common.holder(f, m)
+            if arr is not None:
+                return arr, cnt[0], strip(arg(cnt[0], 1)).get('v')
+    return None
+
+
+def store_base(o):
+    n = o.node
+    if n is None or n.k != 'BinaryOperator' or n.get('op') != '=':
+        return None
+    l = strip(n.ch[0])
+    while l is not None and l.k in ('ArraySubscriptExpr',) or (l is not None and l.k == 'UnaryOperator' and l.get('op') == '*'):
+        l = strip(l.ch[0])
+    d = decl_of(l) if l is not None else None
+    return d['id'] if d is not None else None
+
+
+def semantic_row(exc, f, o):
+    """exceptions that name their entity by role instead of by source text, so that renaming a variable or
+    rewriting an index expression does not change what the exception is about"""
+    for (fn, _), row in exc.items():
+        if fn != f.name or row.get('entity_by') != 'csv-slots' or o.kind != 'write':
+            continue
+        sa = csv_slot_array(f)
+        if sa is not None and store_base(o) == sa[0]:
+            return row
+    return None
+
+
+def csv_side_condition(f, o):
+    sa = csv_slot_array(f)
+    if sa is None:
+        return False, 'the slot array is no longer allocated from one countChars() result'
+    arr, cnt, ch = sa
+    src = render(arg(cnt, 0))
+    # the allocation really has count+2 slots: evaluate its size for two values of the count
+    h = common.holder(f, cnt)
+    alloc = next(m for m in f.calls('malloc') + f.calls('calloc') if common.holder(f, m) == arr)
+
+    def slots(k):
+        env = {h: k}
+        for d in f.local_decls():
+            ds = def_exprs(f, d['id'])
+            if d['id'] != h and len(ds) >= 1:
+                v = common.const_eval(ds[0], env)     # the first assignment: the one the allocation sees
+                if v is not None:
+                    env[d['id']] = v
+        if alloc.get('callee') == 'calloc':
+            a_, b_ = common.const_eval(arg(alloc, 0), env), common.const_eval(arg(alloc, 1), env)
+            tot = a_ * b_ if a_ is not None and b_ is not None else None
+        else:
+            tot = common.const_eval(arg(alloc, 0), env)
+        return None if tot is None else tot // 8
+    s0, s5 = slots(0), slots(5)
+    if s0 is None or s5 is None or s0 < 2 or s5 - s0 < 5:
+        return False, 'the slot array is not provably count+2 pointers large (size for count 0: %s, for count 5: %s slots)' % (s0, s5)
+    if not C.in_loop(f, o.node):
+        # stores outside the scan: at most one before it and one behind it (the two extra slots)
+        outside = [e for b in f.blocks.values() for e in b.elems
+                   if e.k == 'BinaryOperator' and e.get('op') == '=' and not C.in_loop(f, e) and
+                   store_base(type('O', (), {'node': e})) == arr and strip(e.ch[0]).k != 'DeclRefExpr']
+        mn, mx = C.count_on_paths(f, lambda e: any(e.id == x.id for x in outside))
+        return mx <= 2, 'at most two stores outside the scan (%s on the longest path) into the countChars()+2 slots' % mx
+    # a store inside the scan: one per separator met
+    st = f.calls('strchr')
+    if st and render(arg(st[0], 0)) is not None and any(
+            strip(arg(c, 1)).get('v') == ch for c in st) and any(C.in_loop(f, c) for c in st):
+        return True, 'slots are allocated from countChars(%s, c)+2 and the loop advances with strchr(.., c) over the same string' % src
+    is_cur = lambda x: (x.k == 'UnaryOperator' and x.get('op') == '*' and decl_of(x.ch[0]) is not None) or \
+        (x.k == 'ArraySubscriptExpr' and decl_of(x.ch[0]) is not None)
+
+    def guard_edge(blk):
+        ce = common.compare_edges(blk, is_cur) if blk.cond is not None else None
+        return ce[1] if ce is not None and ce[0] == ch else None
+    ok = common.guarded_at(f, o.node, guard_edge,
+                           lambda e: e.k == 'BinaryOperator' and e.get('op') == '=' and e is not o.node and
+                           store_base(type('O', (), {'node': e})) == arr)
+    return ok, ('the store in the scan is reached only through the test of the current character against the counted one'
+                if ok else 'a store into the slot array inside the scan is not tied to meeting the counted character')
+
+
 def side_condition(ctx, prog, f, o, row):
     sc = row.get('side_condition')
     if sc == 'ini-line-cap':
@@ -338,36 +433,8 @@ def side_condition(ctx, prog, f, o, row):
                           for b in f.blocks.values())
         ok = bool(n) and cap is not None and cap % n == 0 and short_break and C.in_loop(f, call)
         return ok, 'chunk %s divides capacity %s, loop leaves on a short read' % (n, cap)
-    if sc == 'tag-search':
-        # the only failure allowed is the sign of the length; the clamp must still be proved
-        if 'can be negative' not in o.missing:
-            return False, 'the upper bound of the tag copy is not proved any more: ' + o.missing
-        call = o.node
-        ln = decl_of(arg(call, 1))
-        good = False
-        if ln is not None:
-            for d in def_exprs(f, ln['id']):
-                names = [decl_of(x) for x in d.walk() if x.k == 'DeclRefExpr']
-                ptrs = {n['id']: n['name'] for n in names if n is not None}
-                srch = []
-                for pid in ptrs:
-                    for e in def_exprs(f, pid):
-                        s = strip(e)
-                        if s.k == 'CallExpr' and s.get('callee') == 'strstr' and strip(arg(s, 1)).k == 'StringLiteral':
-                            srch.append((strip(arg(s, 1))['s'], decl_of(arg(s, 0))))
-                needles = sorted(x[0] for x in srch)
-                if needles == ['%{', '}']:
-                    # the "}" search starts at the pointer found by the "%{" search
-                    close = [x for x in srch if x[0] == '}'][0]
-                    tagvars = [pid for pid in ptrs if any(strip(e).k == 'CallExpr' and strip(arg(strip(e), 1)).get('s') == '%{'
-                                                          for e in def_exprs(f, pid))]
-                    good = close[1] is not None and close[1]['id'] in tagvars
-        return good, 'length = strstr(tag, "}") - tag - 1 with tag = strstr(.., "%{")'
     if sc == 'csv-count':
-        cnt = f.calls('snoopy_util_string_countChars')
-        st = f.calls('strchr')
-        ok = len(cnt) == 1 and len(st) >= 1 and render(arg(cnt[0], 1)) == render(arg(st[0], 1))
-        return ok, 'slots are allocated from countChars(s, c)+2 and the loop advances with strchr(.., c) over the same string'
+        return csv_side_condition(f, o)
     return True, 'no side condition'
 
 
